@@ -124,6 +124,10 @@ class ExtractSingle(Contract):
             jc = ev.args[2]
             items = c.view(jc) if not isinstance(jc, SOpq) else jc
             eng.ghost["off"] = eng.ghost["off"] + SUMJ(items)
+            # C18: members that are only decoded to be skipped produce no progress events - the reporter queue is not
+            # handed to the skip path (self, fp, list, src_end and nothing else)
+            extra = [a for a in ev.args[4:] if a is not None] + [v for v in ev.kwargs.values() if v is not None]
+            c.oblig("assert", "skipped-members-report-no-progress@_check", bool(not extra), props=("C18",))
 
         def is_root(c, t):
             """t is the resolved destination computed at entry: (Path.cwd() if path is None else Path(path)).resolve()"""
@@ -284,7 +288,7 @@ class WorkerCheck(Contract):
     declared size and, on normal return, its CRC has been compared (C04); consumes the sum of their sizes (C09)"""
 
     target = PY + "Worker._check"
-    props = ("C04", "C09")
+    props = ("C04", "C09", "C18")
     abstract = True
     self_class = ("py7zr.py7zr", "Worker")
     opaque = ("py7zr:Worker.decompress", "helpers:is_path_valid")  # is_path_valid: lexical containment, its own contract in paths.py
@@ -306,6 +310,9 @@ class WorkerCheck(Contract):
             tgt = c.view(c.bound["check_target"])
             f = nth(tgt, Lp.i)
             c.oblig("assert", "decodes-declared-size@decompress", eq(ev.args[3], attr(f, "uncompressed")), props=("C04", "C09"))
+            # C18: decoding a member only to skip it reports nothing (no reporter queue: 7th positional / keyword q)
+            qarg = ev.args[6] if len(ev.args) > 6 else ev.kwargs.get("q")
+            c.oblig("assert", "skipped-members-report-no-progress@decompress", bool(qarg is None), props=("C18",))
             eng.ghost["consumed"] = eng.ghost["consumed"] + to_int(ev.args[3])
             eng.ghost.setdefault("decoded", []).append(ev)
 
